@@ -17,7 +17,7 @@ def run(c):
         explores=[("adv.%s" % c.tier, False)],
         asfounds=[("d9", ["InvC05"])],
         prefer=("srcia", "dstia", "transit"),
-        budget=150000 if th else 9000,
+        budget=80000 if th else 9000,
         rand={"rand": 30000 if th else 1500, "maxhops": 4, "kinds": ["scion", "epic"]},
         nontrivial=lambda e: e["o"]["disp"] in ("forward", "deliver") or
         (e["o"]["disp"] == "slow" and e["o"]["code"] in (33, 34)) or
